@@ -52,9 +52,10 @@ impl KzgWorld {
 }
 
 pub fn kzg_world(rng: &mut ChaCha20Rng) -> Result<KzgWorld, Out> {
-    let max_degree = skewed(rng, 1, 64);
-    let supported = if rng.next_u32() % 2 == 0 { max_degree } else { range(rng, 1, max_degree) };
-    let hiding_sup = range(rng, 1, supported);
+    let large = crate::schemes::is_large();
+    let max_degree = if large { range(rng, 1023, 2100) } else { skewed(rng, 1, 64) };
+    let supported = if rng.next_u32() % 2 == 0 { max_degree } else { range(rng, if large { 1023 } else { 1 }, max_degree) };
+    let hiding_sup = if large { range(rng, 1, 3) } else { range(rng, 1, supported) };
     let g2 = rng.next_u32() % 2 == 0;
     let pp = attempt(|| Kzg::setup(max_degree, g2, rng))?;
     Ok(KzgWorld { pp, max_degree, supported, hiding_sup })
@@ -180,7 +181,7 @@ pub struct StreamWorld {
 }
 
 pub fn stream_world(rng: &mut ChaCha20Rng, max_deg_cap: usize) -> Result<StreamWorld, Out> {
-    let max_degree = skewed(rng, 1, max_deg_cap);
+    let max_degree = if crate::schemes::is_large() { range(rng, 1023, 2100) } else { skewed(rng, 1, max_deg_cap) };
     let max_pts = range(rng, 1, 8);
     let ck = guard(|| SCk::<E>::new(max_degree, max_pts, rng)).map_err(Out::Panic)?;
     let vk = SVk::from(&ck);
